@@ -36,6 +36,7 @@ type c01pOp struct {
 	Req      map[string]int64 `json:"req,omitempty"`
 	Np       bool             `json:"np,omitempty"`
 	Bound    bool             `json:"bound,omitempty"`
+	Term     bool             `json:"term,omitempty"` // the pod has finished: node name kept, phase Succeeded / Failed; counted until deleted
 	Delta    map[string]int64 `json:"delta,omitempty"`
 }
 
@@ -117,7 +118,7 @@ func c01pRun(t *testing.T, rec *vu.Recorder, script []c01pOp) {
 			}
 			ev["name"] = o.Name
 		case "podSet":
-			p := c03Pod(o.Pod, o.Label, o.Req, o.Np, o.Bound)
+			p := c03Pod(o.Pod, o.Label, o.Req, o.Np, o.Bound, o.Term)
 			if old, ok := pods[o.Pod]; ok {
 				gp.OnPodUpdate(old, p)
 			} else {
@@ -125,6 +126,9 @@ func c01pRun(t *testing.T, rec *vu.Recorder, script []c01pOp) {
 			}
 			pods[o.Pod] = p
 			ev["pod"], ev["label"], ev["req"], ev["np"], ev["bound"] = o.Pod, o.Label, c01pV(o.Req), o.Np, o.Bound
+			if o.Term {
+				ev["term"] = true
+			}
 		case "podDelete":
 			if old, ok := pods[o.Pod]; ok {
 				gp.OnPodDelete(old)
@@ -159,6 +163,7 @@ func c01pRandom(rng *rand.Rand, n int) []c01pOp {
 	}
 	quotas := map[string]qs{}
 	pods := map[string]string{} // pod -> label
+	last := map[string]c01pOp{} // pod -> its last podSet
 	bound := map[string]bool{}
 	vec := func(max int64) map[string]int64 {
 		return map[string]int64{"cpu": rng.Int63n(max + 1), "memory": rng.Int63n(max + 1)}
@@ -205,10 +210,21 @@ func c01pRandom(rng *rand.Rand, n int) []c01pOp {
 				b := bound[id] || rng.Intn(4) == 0
 				bound[id] = b
 				pods[id] = label
-				out = append(out, c01pOp{Op: "podSet", Pod: id, Label: label, Req: vec(5), Np: rng.Intn(5) == 0, Bound: b})
+				o := c01pOp{Op: "podSet", Pod: id, Label: label, Req: vec(5), Np: rng.Intn(5) == 0, Bound: b}
+				if l, had := last[id]; had && known && l.Label == label {
+					switch rng.Intn(5) {
+					case 0: // only the preemptible label flips
+						o.Req, o.Np = l.Req, !l.Np
+					case 1: // the pod finishes; it keeps counting until it is deleted
+						o.Req, o.Np, o.Bound, o.Term = l.Req, l.Np, false, true
+					}
+				}
+				last[id] = o
+				out = append(out, o)
 			case rng.Intn(4) == 0:
 				delete(pods, id)
 				delete(bound, id)
+				delete(last, id)
 				out = append(out, c01pOp{Op: "podDelete", Pod: id})
 			case rng.Intn(2) == 0:
 				out = append(out, c01pOp{Op: "reserve", Pod: id})
